@@ -14,3 +14,14 @@ class Fixture:
 
     def good_positional(self, index, hardened, network):
         return self.derive(index, hardened, network)
+
+
+class KeyedFixture:
+    def check(self, sequence, tx_locktime):
+        return sequence, tx_locktime
+
+    def bad_keyed(self, env):
+        return self.check(env.get('locktime'), env['sequence'])
+
+    def good_keyed(self, env):
+        return self.check(env['sequence'], env.get('locktime'))
